@@ -744,9 +744,9 @@ func runC20(c *core.Ctx) error {
 
 func c20Timeout(c *core.Ctx) time.Duration {
 	if c.Thorough() {
-		return 25 * time.Minute
+		return 45 * time.Minute
 	}
-	return 8 * time.Minute
+	return 30 * time.Minute
 }
 
 func replayC20(c *core.Ctx, raw json.RawMessage) error {
